@@ -102,6 +102,12 @@ structure Times where
 def Times.cols (t : Times) : List Rat :=
   [t.user, t.nice, t.system, t.idle, t.iowait, t.irq, t.softirq, t.steal, t.guest, t.guestNice]
 
+/-- a kernel record in seconds -/
+def Times.ofTicks (tck : Nat) (t : Ticks) : Times :=
+  let f (n : Nat) : Rat := (n : Rat) / (tck : Rat)
+  ⟨f t.user, f t.nice, f t.system, f t.idle, f t.iowait, f t.irq, f t.softirq, f t.steal,
+   f t.guest, f t.guestNice⟩
+
 /-- the tuple the platform exposes -/
 def Times.expose (nf : Nat) (t : Times) : List Rat := t.cols.take nf
 
